@@ -7,16 +7,21 @@ package cluster
 
 import (
 	"bufio"
+	"bytes"
 	"fmt"
 	"io"
 	"net"
+	"net/http"
 	"os"
 	"path/filepath"
+	"sort"
 	"strings"
 	"sync"
 	"sync/atomic"
 	"syscall"
 	"time"
+
+	"go.etcd.io/etcd/raft/v3/raftpb"
 
 	"rgverif/internal/procs"
 	"rgverif/internal/respc"
@@ -29,9 +34,16 @@ type link struct {
 	target   string
 	cut      int32
 	delayMs  int32
-	mu       sync.Mutex
-	conns    map[net.Conn]bool
-	bytes    int64
+	// lossyPost: stream requests are refused (the peers fall back to one POST per message) and every POST is
+	// delivered to the target, but its response is dropped and the connection closed: the sender cannot know
+	// whether the message arrived
+	lossyPost int32
+	mu        sync.Mutex
+	conns     map[net.Conn]bool
+	bytes     int64
+	dropped   int64 // responses dropped in lossyPost mode
+	refused   int64 // stream requests refused in lossyPost mode
+	props     int64 // ... of which carried a forwarded proposal (raftpb.MsgProp)
 }
 
 func (l *link) serve() {
@@ -58,7 +70,94 @@ func (l *link) track(c net.Conn, add bool) {
 	l.mu.Unlock()
 }
 
-func (l *link) pipe(a net.Conn) {
+// lossy handles one incoming connection in lossyPost mode; it returns false if the connection is to be piped as usual.
+// The stream that carries everything but appends is refused, so heartbeats, responses, votes and forwarded client
+// commands travel as one POST each. A POST carrying a forwarded command (raftpb.MsgProp) is delivered, but its
+// response is dropped and the connection ended; every other POST is answered normally.
+func (l *link) lossy(a net.Conn, br *bufio.Reader) bool {
+	var b net.Conn
+	var bbr *bufio.Reader
+	defer func() {
+		if b != nil {
+			b.Close()
+		}
+	}()
+	for first := true; ; first = false {
+		_ = a.SetReadDeadline(time.Now().Add(30 * time.Second))
+		head, err := br.Peek(24)
+		if err != nil && len(head) < 10 {
+			a.Close()
+			return true
+		}
+		switch {
+		case bytes.HasPrefix(head, []byte("GET /raft/stream/message")):
+			atomic.AddInt64(&l.refused, 1)
+			a.Close()
+			return true
+		case bytes.HasPrefix(head, []byte("GET /raft/stream/")):
+			if first {
+				_ = a.SetReadDeadline(time.Time{})
+				return false // the append stream: piped as it is
+			}
+			a.Close()
+			return true
+		}
+		// any other request (a POST with one raft message, a probe): proxied request by request, so that requests
+		// that share a keep-alive connection are all seen
+		req, err := http.ReadRequest(br)
+		if err != nil {
+			a.Close()
+			return true
+		}
+		body, _ := io.ReadAll(req.Body)
+		req.Body = io.NopCloser(bytes.NewReader(body))
+		req.ContentLength = int64(len(body))
+		if b == nil {
+			if b, err = net.DialTimeout("tcp", l.target, 2*time.Second); err != nil {
+				a.Close()
+				return true
+			}
+			bbr = bufio.NewReader(b)
+		}
+		_ = b.SetDeadline(time.Now().Add(10 * time.Second))
+		if req.Write(b) != nil {
+			a.Close()
+			return true
+		}
+		resp, err := http.ReadResponse(bbr, req)
+		if err != nil {
+			a.Close()
+			return true
+		}
+		var m raftpb.Message
+		if req.Method == "POST" && m.Unmarshal(body) == nil && m.Type == raftpb.MsgProp {
+			_, _ = io.Copy(io.Discard, resp.Body)
+			resp.Body.Close()
+			atomic.AddInt64(&l.dropped, 1)
+			atomic.AddInt64(&l.props, 1)
+			a.Close() // delivered; the response is not relayed: the connection just ends
+			return true
+		}
+		_ = a.SetWriteDeadline(time.Now().Add(10 * time.Second))
+		if resp.Write(a) != nil {
+			a.Close()
+			return true
+		}
+		if atomic.LoadInt32(&l.lossyPost) == 0 || atomic.LoadInt32(&l.cut) == 1 {
+			a.Close() // the mode is over: the peer reconnects and is piped as usual
+			return true
+		}
+	}
+}
+
+func (l *link) pipe(a0 net.Conn) {
+	br := bufio.NewReaderSize(a0, 64*1024)
+	if atomic.LoadInt32(&l.lossyPost) == 1 {
+		if l.lossy(a0, br) {
+			return
+		}
+	}
+	a := &bufConn{Conn: a0, br: br}
 	b, err := net.DialTimeout("tcp", l.target, 2*time.Second)
 	if err != nil {
 		a.Close()
@@ -98,6 +197,14 @@ func (l *link) pipe(a net.Conn) {
 	l.track(a, false)
 	l.track(b, false)
 }
+
+// bufConn reads through the buffer that was used to look at the first bytes.
+type bufConn struct {
+	net.Conn
+	br *bufio.Reader
+}
+
+func (c *bufConn) Read(p []byte) (int, error) { return c.br.Read(p) }
 
 func (l *link) setCut(cut bool) {
 	if cut {
@@ -304,7 +411,51 @@ func (c *Cluster) Heal() {
 	for _, l := range c.links {
 		l.setCut(false)
 		atomic.StoreInt32(&l.delayMs, 0)
+		atomic.StoreInt32(&l.lossyPost, 0)
 	}
+}
+
+// LossyPosts puts every link into the mode in which stream requests are refused and every POST is delivered but its
+// response dropped; open connections are closed so that the peers have to come back through the links. It returns
+// a function that reports how many responses were dropped so far.
+func (c *Cluster) LossyPosts() func() int64 {
+	for _, l := range c.links {
+		atomic.StoreInt32(&l.lossyPost, 1)
+		l.mu.Lock()
+		for cn := range l.conns {
+			cn.Close()
+		}
+		l.mu.Unlock()
+	}
+	return func() int64 {
+		var n int64
+		for _, l := range c.links {
+			n += atomic.LoadInt64(&l.dropped)
+		}
+		return n
+	}
+}
+
+// LinkStats (debugging aid): per link "from->to: open connections, refused streams, dropped proposals".
+func (c *Cluster) LinkStats() []string {
+	var out []string
+	for k, l := range c.links {
+		l.mu.Lock()
+		n := len(l.conns)
+		l.mu.Unlock()
+		out = append(out, fmt.Sprintf("%d->%d: %d open, %d refused, %d proposals, lossy=%d", k[0], k[1], n, atomic.LoadInt64(&l.refused), atomic.LoadInt64(&l.props), atomic.LoadInt32(&l.lossyPost)))
+	}
+	sort.Strings(out)
+	return out
+}
+
+// DroppedProposals: forwarded proposals that were delivered in lossy-posts mode while their response was dropped.
+func (c *Cluster) DroppedProposals() int64 {
+	var n int64
+	for _, l := range c.links {
+		n += atomic.LoadInt64(&l.props)
+	}
+	return n
 }
 
 // Delay makes every forwarded chunk on every link wait ms milliseconds.
